@@ -51,6 +51,8 @@ def cases(tier, seed):
         out.append(dict(t="sampling", depth=2 if q else R.choice([2, 3]), seed=R.randrange(1 << 30), fmt=R.choice(["npy", "fits"]), _timeout=900))
     for i in range(4 if q else 40):
         out.append(dict(t="chunks_all", depth=R.choice([1, 2]), seed=R.randrange(1 << 30), map=i, _timeout=900))
+    for i in range(5 if q else 40):
+        out.append(dict(t="chunks_all", depth=R.choice([1, 2, 2]), seed=R.randrange(1 << 30), map=i, aligned=i + 1, _timeout=900))
     return out
 
 
@@ -444,6 +446,12 @@ def case_chunks_all(spec, workdir):
     maps = [(24, 64), (64, 128), (40, 48), (33, 67), (60, 61), (50, 100)]  # 2:1 and clearly non-2:1 aspect ratios alternate
     H, W = maps[spec.get("map", R.randrange(6)) % len(maps)]
     cw, ch = R.randrange(W // 4, W), R.randrange(H // 4, H)
+    if spec.get("aligned"):
+        # chunk boundaries on the longitudes / latitudes where TOAST pixel centres lie EXACTLY: the diagonals of the TOAST
+        # square (lon = +-pi/4, +-3pi/4, i.e. map columns k*W/8) and nothing else; chunk widths of both parities
+        H, W = [(64, 128), (24, 64), (40, 48), (100, 200), (36, 72)][spec["aligned"] % 5]
+        cw = (W // 8) * R.choice([1, 3, 1, 3, 5])  # odd multiples: a boundary on lon = -3pi/4 or -pi/4
+        ch = R.choice([H // 4, H // 2, H // 3, H])
     idmap = (np.arange(H * W).reshape(H, W) + 1).astype(np.int32)
     fc = FakeChunked(idmap, cw, ch)
     ck = samplers.ChunkedPlateCarreeSampler(fc, planetary=True)
